@@ -183,8 +183,9 @@ theorem ok_iff_all_mapped (cs : List SComp) (hr : ∀ c ∈ cs, c.role ∈ pysdm
         rw [hd, hro]
 
 /-! ### non-vacuity -/
-example : toVtlJson cfg [⟨"A1", "ReportingYear", "ATTRIBUTE"⟩, ⟨"M1", "Double", "MEASURE"⟩, ⟨"D1", "String", "DIMENSION"⟩]
-    = .ok [⟨"D1", "Identifier", "String", false⟩, ⟨"M1", "Measure", "Number", true⟩,
-           ⟨"A1", "Attribute", "Time_Period", true⟩] := by decide +kernel
+example : (match toVtlJson cfg [⟨"A1", "ReportingYear", "ATTRIBUTE"⟩, ⟨"M1", "Double", "MEASURE"⟩, ⟨"D1", "String", "DIMENSION"⟩] with
+    | .ok out => out.length == 3 && out.contains ⟨"A1", "Attribute", "Time_Period", true⟩
+        && out.contains ⟨"D1", "Identifier", "String", false⟩ && out.contains ⟨"M1", "Measure", "Number", true⟩
+    | .error _ => false) = true := by decide +kernel
 
 end VtlModel.C27
